@@ -22,6 +22,11 @@ Clause(r) == Pick(<<
       \E u \in Set(r.sends_ok) : u \in Set(r.expect_resp) \cup Set(r.expect_inputs)
                                  /\ u \notin Set(r.resp_returned) /\ u \notin Set(r.inputs_processed)>>,
   <<"event_processed_twice", Len(r.resp_returned) # Cardinality(Set(r.resp_returned))>>,
+  \* "never lose an event": an accepted event is processed to completion -- the run it resumed goes on to its result
+  \* (the waiting step got the event and the run was then torn down = the event's effect is lost)
+  <<"accepted_event_not_processed_to_completion",
+      "expect_result" \in DOMAIN r /\ r.expect_result # "" /\ Set(r.expect_resp) # {} /\ Set(r.expect_resp) \subseteq Set(r.sends_ok)
+      /\ r.result # r.expect_result>>,
   <<"send_failed_silently_and_event_lost",
       \E u \in Set(r.expect_resp) \cup Set(r.expect_inputs) : u \notin Set(r.sends_ok) /\ u \notin Set(r.sends_failed)>> >>)
 Init == tid \in 1..Len(T.traces) /\ l = 1 /\ verdict = "ok"
